@@ -67,6 +67,7 @@ def run(run, ix, tier):
     run.rule('C-R9', floor=30, desc='packed interval and unpacked endpoints stay in sync')
     check_stale_packs(run, ix, 'C-R9', prefix='mpi_')
     check_turning_point_brackets(run, ix)
+    check_near_one_guard(run, ix)
     # C-R16: zero and infinite endpoints through + - * / (class-level enclosure, sa/checks/special_rules.py)
     from .special_rules import check_interval_endpoints
     run.rule('C-R16', floor=500, desc='interval + - * / on every combination of endpoint classes (0, +-inf)')
@@ -561,10 +562,20 @@ def check_turning_point_brackets(run, ix):
                 isinstance(value.args[0], ast.Constant):
             consts[name] = value.args[0].value
     pairs = [(n[:-2], consts[n], consts[n[:-2] + '_b']) for n in consts if n.endswith('_a') and n[:-2] + '_b' in consts]
-    run.rule('C-R17', floor=2, desc='turning-point brackets: the conservative constant on each side')
+    run.rule('C-R17', floor=3, desc='turning-point brackets: the conservative constant on each side')
     if not pairs:
         raise AnalysisError('bracket constants not found')
+    # location of the positive minimum of gamma (zero of digamma), a mathematical constant
+    X0 = {'gamma_min': 1.4616321449683623412626595423257}
     for base, va, vb in pairs:
+        if base in X0:
+            if va < X0[base] < vb:
+                run.ok('C-R17', '%s_a < x0 < %s_b' % (base, base))
+            else:
+                run.fail(Finding('C-R17', rel, '<module>', '%s_a, %s_b = %r, %r' % (base, base, va, vb),
+                                 'the bracket [%r, %r] does not contain the minimum of gamma x0 = 1.46163214496836234...: an '
+                                 'interval that contains x0 and ends between x0 and the bracket is treated as monotone'
+                                 % (va, vb), line=None))
         if not va < vb:
             run.fail(Finding('C-R17', rel, '<module>', '%s_a, %s_b' % (base, base),
                              'the bracket is not ordered: %r >= %r' % (va, vb), line=None))
@@ -605,3 +616,43 @@ def check_turning_point_brackets(run, ix):
                                                          'b' if right else 'a'), line=c.lineno))
     if n < 2:
         raise AnalysisError('mpi_gamma: region tests against the bracket constants not found')
+
+
+
+def check_near_one_guard(run, ix):
+    """C-R18.  mpf_log has a shortcut for x = 1 + t: it forms t from the mantissa as  man - 2^(bc-1)  (x in [1, 2)) or
+    2^bc - man  (x in [1/2, 1)) and, when t is tiny, returns t itself (perturbed in the direction of the neglected
+    term).  Those two expressions are x - 1 only when the binary magnitude mag = exp + bc is 1 resp. 0.  The guard of
+    the shortcut is evaluated from the source for mag in -8..8 and must hold for no other magnitude (`abs(mag) <= 1`
+    also admitted [1/4, 1/2): log(0.25 + 2**-200) was 2.5e-60, and iv.log did not contain the value)."""
+    from ..formula import Evaluator
+    rel = 'mpmath/libmp/libelefun.py'
+    f = ix.func(rel, 'mpf_log')
+    run.rule('C-R18', floor=1, desc='the x = 1 + t shortcut of mpf_log is entered only for 1/2 <= x < 2')
+    guards = []
+    for st in _walk_own(f.node):
+        if isinstance(st, ast.If) and any(isinstance(x, ast.BinOp) and isinstance(x.op, ast.LShift) and
+                                          norm(x.left) == 'MPZ_ONE' and 'bc' in norm(x.right)
+                                          for b in st.body for x in ast.walk(b)):
+            if not any(st in ast.walk(g) and g is not st for g in guards):
+                guards.append(st)
+    outer = [g for g in guards if not any(g is not h and any(g is x for x in ast.walk(h)) for h in guards)]
+    if not outer:
+        raise AnalysisError('mpf_log: the x = 1 + t shortcut was not found')
+    g = outer[0]
+    ev = Evaluator()
+    wrong = []
+    for mag in range(-8, 9):
+        try:
+            t = ev.ev(g.test, {'mag': mag, 'abs_mag': abs(mag)})
+        except AnalysisError as e:
+            raise AnalysisError('mpf_log: guard of the x = 1 + t shortcut: %s' % e)
+        if t and mag not in (0, 1):
+            wrong.append(mag)
+    if wrong:
+        run.fail(Finding('C-R18', rel, f.qualname, norm(g.test),
+                         'the shortcut that treats the mantissa as 1 + t is entered for binary magnitude(s) %s, i.e. for x '
+                         'in [2^(mag-1), 2^mag) far from 1: there `man - 2^(bc-1)` is not x - 1, and for x = 2^(mag-1)*(1+tiny) '
+                         'the tiny t is returned as the logarithm' % wrong, line=g.lineno))
+    else:
+        run.ok('C-R18', 'guard `%s` holds only for mag in {0, 1}' % norm(g.test))
